@@ -372,6 +372,74 @@ pub fn one_deviation_envs() -> Vec<(String, EnvSpec)> {
     v
 }
 
+/// One deviation *at each position* of a three-input, three-output transaction whose inputs and
+/// outputs are otherwise plain but pairwise distinct: a field marshalled from the wrong index, or
+/// carried over from the previous index, is invisible when only input 0 or only the last input deviates.
+pub fn positional_envs() -> Vec<(String, EnvSpec)> {
+    let mut b = base_env();
+    b.inputs = vec![
+        InSpec { prev_txid: 0xeb, vout: 0, sequence: 0xffff_fffe, ..base_in() },
+        InSpec { prev_txid: 0x77, vout: 1, sequence: 0xffff_fff0, utxo_value: ValK::Explicit(20_000), ..base_in() },
+        InSpec { prev_txid: 0x78, vout: 2, sequence: 0xffff_fff1, utxo_value: ValK::Explicit(30_000), ..base_in() },
+    ];
+    b.outputs = vec![base_out(), OutSpec { value: ValK::Explicit(11), script: ScriptK::Long, ..base_out() }, OutSpec { value: ValK::Explicit(3300), fee: true, ..base_out() }];
+    let mut v: Vec<(String, EnvSpec)> = vec![];
+    for ix in 0..3u32 {
+        let mut e = b.clone();
+        e.ix = ix;
+        v.push((format!("3 plain inputs ix={ix}"), e));
+    }
+    let in_devs: Vec<(&str, Box<dyn Fn(&mut InSpec)>)> = vec![
+        ("annex=3", Box::new(|i| i.annex = Some(vec![1, 2, 3]))),
+        ("annex=empty", Box::new(|i| i.annex = Some(vec![]))),
+        ("pegin", Box::new(|i| i.pegin = true)),
+        ("issuance=new/explicit", Box::new(|i| {
+            i.issuance = IssK::New;
+            i.iss_amount = ValK::Explicit(1000);
+            i.iss_keys = ValK::Explicit(3);
+        })),
+        ("issuance=reissue/confidential/proofs", Box::new(|i| {
+            i.issuance = IssK::Reissue;
+            i.iss_amount = ValK::Confidential(3);
+            i.iss_proofs = ProofK::Short;
+        })),
+        ("script_sig=1", Box::new(|i| i.script_sig = ScriptK::OneByte)),
+        ("utxo_asset=confidential", Box::new(|i| i.utxo_asset = AssetK::Confidential(3))),
+        ("utxo_value=confidential", Box::new(|i| i.utxo_value = ValK::Confidential(1))),
+        ("utxo_script=long", Box::new(|i| i.utxo_script = ScriptK::Long)),
+        ("sequence=0", Box::new(|i| i.sequence = 0)),
+    ];
+    for p in 0..3usize {
+        for (n, f) in &in_devs {
+            for ix in [p as u32, (p as u32 + 1) % 3] {
+                let mut e = b.clone();
+                f(&mut e.inputs[p]);
+                e.ix = ix;
+                v.push((format!("3 inputs, in{p}.{n} ix={ix}"), e));
+            }
+        }
+    }
+    let out_devs: Vec<(&str, Box<dyn Fn(&mut OutSpec)>)> = vec![
+        ("asset=confidential", Box::new(|o| o.asset = AssetK::Confidential(1))),
+        ("asset=other", Box::new(|o| o.asset = AssetK::Explicit(0x24))),
+        ("value=confidential", Box::new(|o| o.value = ValK::Confidential(0))),
+        ("nonce=explicit", Box::new(|o| o.nonce = NonceK::Explicit(9))),
+        ("nonce=confidential", Box::new(|o| o.nonce = NonceK::Confidential(1))),
+        ("script=op_return", Box::new(|o| o.script = ScriptK::OpReturn)),
+        ("script=empty", Box::new(|o| o.script = ScriptK::Empty)),
+        ("surjection=short", Box::new(|o| o.surjection = ProofK::Short)),
+        ("range=short", Box::new(|o| o.range = ProofK::Short)),
+    ];
+    for p in 0..3usize {
+        for (n, f) in &out_devs {
+            let mut e = b.clone();
+            f(&mut e.outputs[p]);
+            v.push((format!("3 outputs, out{p}.{n}"), e));
+        }
+    }
+    v
+}
+
 /// two simultaneous deviations (thorough)
 pub fn two_deviation_envs() -> Vec<(String, EnvSpec)> {
     let ones = one_deviation_envs();
